@@ -322,7 +322,7 @@ func (r *funcRun) writesOf(in ssa.Instruction) []string {
 		return r.addrComps(x.Addr)
 	case *ssa.MapUpdate:
 		mi := r.v.mapInfo(x.Map.Type().Underlying().(*types.Map))
-		return append([]string{mi.dom}, r.v.mapValComps(mi)...)
+		return append([]string{mi.dom, "MapCard[" + strings.TrimPrefix(mi.dom, "MapDom[")}, r.v.mapValComps(mi)...)
 	case *ssa.Next:
 		return []string{"IterVisited"}
 	case *ssa.Range:
@@ -351,7 +351,7 @@ func (r *funcRun) callWrites(cc *ssa.CallCommon) []string {
 			return []string{everything}
 		case "delete":
 			mi := r.v.mapInfo(cc.Args[0].Type().Underlying().(*types.Map))
-			return []string{mi.dom}
+			return []string{mi.dom, "MapCard[" + strings.TrimPrefix(mi.dom, "MapDom[")}
 		}
 		return nil
 	}
@@ -549,6 +549,8 @@ func (r *funcRun) step(st *State, in ssa.Instruction, b *ssa.BasicBlock) ([]work
 		mi := r.v.mapInfo(x.Map.Type().Underlying().(*types.Map))
 		k := r.term(st, x.Key)
 		d := st.comp(mi.dom, mi.domSig)
+		r.locksetComp(st, mi.dom, true, x)
+		r.mapCardUpdate(st, mi, m, k, true, d)
 		st.setComp(mi.dom, mi.domSig, fmt.Sprintf("(store %s %s (store (select %s %s) %s true))", d, m.S, d, m.S, k.S))
 		r.v.writeMapVal(st, mi.val, mi.ksort, mi.vt, m, k, r.val(st, x.Value))
 		return nil, false
